@@ -712,6 +712,25 @@ pub fn run_obs_history<F: Fl>(h: &ObsHistory) -> Result<OFacts, Div> {
 }
 
 fn run_inner<F: Fl>(h: &ObsHistory) -> Result<OFacts, Div> {
+    // a bogus successful upgrade does not end the history: the handle is adopted so that the count monitors
+    // keep judging; what they find is reported together with it
+    let mut soft: Option<Div> = None;
+    let r = run_inner2::<F>(h, &mut soft);
+    match (r, soft) {
+        (r, None) => r,
+        (Ok(_), Some(s)) => Err(s),
+        (Err(d), Some(s)) => {
+            if d.prop.split('|').any(|t| t == "C19") && !s.prop.split('|').any(|t| t == "C19") {
+                let prop: &'static str = Box::leak(format!("{}|C19", s.prop).into_boxed_str());
+                Err(Div { prop, what: format!("{} (earlier: {})", d.what, s.what) })
+            } else {
+                Err(s)
+            }
+        }
+    }
+}
+
+fn run_inner2<F: Fl>(h: &ObsHistory, soft: &mut Option<Div>) -> Result<OFacts, Div> {
     let a = F::ASYNC;
     let mut w: World<F> = World { uniq: None, owners: vec![], weaks: vec![], subs: vec![] };
     // the Default impls build the same thing as new(T::default())
@@ -723,6 +742,7 @@ fn run_inner<F: Fl>(h: &ObsHistory) -> Result<OFacts, Div> {
     }
     let mut m = Model { value: h.init, version: 1, closed: false, unique: !h.shared, subs: vec![] };
     let mut f = OFacts::default();
+    let mut bogus_upgrades = 0u32;
     let (max_subs, max_owners, max_weaks) = if h.many > 0 { (h.many, h.many, h.many) } else { (5, 4, 3) };
     macro_rules! bail {
         ($tag:expr, $($arg:tt)*) => {{
@@ -1091,8 +1111,20 @@ fn run_inner<F: Fl>(h: &ObsHistory) -> Result<OFacts, Div> {
                     let up = F::w_upgrade(&w.weaks[wi % w.weaks.len()]);
                     let ok = up.is_some();
                     let expect = !w.owners.is_empty();
-                    if ok != expect {
-                        // a handle that should not exist: do not run its destructor (it may free what others own)
+                    if ok && !expect {
+                        // a handle that should not exist
+                        let what = format!("step {step} upgrade: is_some = true, but no owner exists");
+                        crate::common::note_divergence(tag(a, "C03"), &what);
+                        bogus_upgrades += 1;
+                        if soft.is_none() {
+                            *soft = Some(Div { prop: tag(a, "C03"), what });
+                        }
+                        // adopt the first few as live handles: the counts they report are judged from here on
+                        if bogus_upgrades > 3 {
+                            std::mem::forget(up);
+                            return Err(soft.take().unwrap());
+                        }
+                    } else if ok != expect {
                         std::mem::forget(up);
                         bail!("C03", "step {step} upgrade: is_some = {ok}, but {} owner(s) exist", w.owners.len());
                     }
